@@ -307,13 +307,12 @@ impl MemStorageCore {
 
         if let Some(entry) = self.entries.first() {
             let offset = compact_index - entry.index;
-            if offset as usize == self.entries.len() {
-                // Everything is compacted: remember the boundary, otherwise first_index/
-                // last_index/term would fall back to the position of the last snapshot.
-                let last = &self.entries[self.entries.len() - 1];
-                self.snapshot_metadata.index = last.index;
-                self.snapshot_metadata.term = last.term;
-            }
+            // Remember the boundary: the term of the entry before the first index is retained
+            // (see `Storage::term`), and when everything is compacted first_index/last_index
+            // must not fall back to the position of the last snapshot.
+            let last = &self.entries[offset as usize - 1];
+            self.snapshot_metadata.index = last.index;
+            self.snapshot_metadata.term = last.term;
             self.entries.drain(..offset as usize);
         }
         Ok(())
